@@ -16,7 +16,7 @@ extern void* __libc_calloc(size_t, size_t);
 
 #define MAXB 8192
 typedef struct { void* p; size_t n; int live; } blk_t;
-typedef struct { size_t n; size_t off; int how; /* 0 free, 1 realloc-moved */ } snap_t;
+typedef struct { size_t n; size_t off; int how; /* 0 free, 1 realloc-moved */ uintptr_t addr; } snap_t;
 
 static volatile int active;
 static uintptr_t lo, hi;
@@ -48,7 +48,7 @@ static void snapshot(void* p, size_t n, int how)
 		arena = q, arena_cap = cap;
 	}
 	memcpy(arena + arena_len, p, n);
-	snaps[nsnaps].n = n, snaps[nsnaps].off = arena_len, snaps[nsnaps].how = how;
+	snaps[nsnaps].n = n, snaps[nsnaps].off = arena_len, snaps[nsnaps].how = how, snaps[nsnaps].addr = (uintptr_t)p;
 	arena_len += n, ++nsnaps;
 }
 
@@ -153,6 +153,7 @@ const unsigned char* wa_live_data(int k) { int i = live_idx(k); return i < 0 ? 0
 int wa_nsnaps(void) { return nsnaps; }
 size_t wa_snap_size(int i) { return snaps[i].n; }
 int wa_snap_how(int i) { return snaps[i].how; }
+uintptr_t wa_snap_addr(int i) { return snaps[i].addr; }
 const unsigned char* wa_snap_data(int i) { return arena + snaps[i].off; }
 /* release blocks that the library leaked in a failed call so that later cases are not disturbed */
 void wa_release_leaked(void) { int i; for (i = 0; i < ntab; ++i) if (tab[i].live) { __libc_free(tab[i].p); tab[i].live = 0; } }
